@@ -37,36 +37,26 @@ def gen_sched(rng) -> Dict[str, Any]:
     return {"seed": rng.randrange(1 << 30), "adv": rng.random() < 0.5, "weights": w}
 
 
-_frozen = False
-
-
 @contextlib.contextmanager
 def session(sched: Optional[Dict[str, Any]], nodes: List[Any]):
-    """Runs the body under a virtual scheduler; every node appended to `nodes` is shut down before the session
-    closes.  The garbage collector is off during the case and runs at the end, inside the session, so that
-    `__del__` -> `_shutdown()` of abandoned iterators happens at a fixed point of the schedule."""
-    global _frozen
+    """Runs the body under a virtual scheduler (which switches the cyclic GC off for the case and collects at its
+    boundaries); every node appended to `nodes` is shut down and collected before the session closes, so that
+    `__del__` -> `_shutdown()` of abandoned iterators happens at a fixed point of the schedule.  Everything alive
+    before the case (torch!) is moved out of the collector's view, which keeps those collections cheap."""
     sched = sched or {"seed": 0, "adv": False, "weights": None}
+    import torchdata.nodes  # noqa: F401  (before the freeze)
     gc.collect()
-    if not _frozen:
-        # everything imported so far (torch!) leaves the collector's view: a collection per case stays cheap
-        gc.freeze()
-        _frozen = True
-    gc.disable()
-    try:
-        with vsched.Session(sched["seed"], adversarial=bool(sched.get("adv")), weights=sched.get("weights") or None) as s:
+    gc.freeze()
+    with vsched.Session(sched["seed"], adversarial=bool(sched.get("adv")), weights=sched.get("weights") or None) as s:
+        try:
+            yield s
+        finally:
             try:
-                yield s
-            finally:
-                try:
-                    for n in nodes:
-                        shutdown(n)
-                    del nodes[:]
-                    gc.collect()
-                except BaseException:  # noqa: BLE001  (a hang while cleaning up is not the case's verdict)
-                    pass
-    finally:
-        gc.enable()
+                for n in nodes:
+                    shutdown(n)
+                del nodes[:]
+            except BaseException:  # noqa: BLE001  (a hang while cleaning up is not the case's verdict)
+                pass
 
 
 class MapErr(ArithmeticError):
@@ -107,7 +97,11 @@ def _rep(x):
     return []
 
 
-MAP_FNS = {"id": lambda x: x, "inc": _inc, "dbl": _dbl, "none_if_odd": _none_if_odd, "err_if_3": _err_if_3,
+def _id(x):
+    return x
+
+
+MAP_FNS = {"id": _id, "inc": _inc, "dbl": _dbl, "none_if_odd": _none_if_odd, "err_if_3": _err_if_3,
            "wrap": _wrap, "rep": _rep}
 
 
@@ -115,14 +109,38 @@ def _truthy(x):
     return bool(x)
 
 
-PRED_FNS = {
-    "is_even": lambda x: type(x) is int and x % 2 == 0,
-    "truthy": _truthy,
-    "not_none": lambda x: x is not None,
-    "all": lambda x: True,
-    "nothing": lambda x: False,
-}
-UPD_FNS = {"inc": lambda e: e + 1, "add2": lambda e: e + 2, "same": lambda e: e}
+def _is_even(x):
+    return type(x) is int and x % 2 == 0
+
+
+def _not_none(x):
+    return x is not None
+
+
+def _all(x):
+    return True
+
+
+def _nothing(x):
+    return False
+
+
+PRED_FNS = {"is_even": _is_even, "truthy": _truthy, "not_none": _not_none, "all": _all, "nothing": _nothing}
+
+
+def _upd_inc(e):
+    return e + 1
+
+
+def _upd_add2(e):
+    return e + 2
+
+
+def _upd_same(e):
+    return e
+
+
+UPD_FNS = {"inc": _upd_inc, "add2": _upd_add2, "same": _upd_same}
 
 
 class EpochSampler:
@@ -492,10 +510,13 @@ def gen_pipe(rng, depth: int, allow_err: bool, p_thread: float = 0.4, unordered_
     return _assemble(chain)
 
 
-def gen_ops(rng, n: int, with_tokens: bool, strict_epochs: bool = False) -> List[Any]:
+def gen_ops(rng, n: int, with_tokens: bool, strict_epochs: bool = False, fresh_only: bool = False) -> List[Any]:
     """strict_epochs: `reset_none` only after at least one `next` since the last reset.  Needed for
     pipelines with reader threads: the reader calls next() on the source ahead of the consumer, so whether
-    a SamplerWrapper below has `_started` when reset() comes without a consumer next() depends on timing."""
+    a SamplerWrapper below has `_started` when reset() comes without a consumer next() depends on timing.
+    fresh_only: a pipeline object is never reset while it may have live reader threads (no `reset_none` after
+    the first op, every `reset_tok` goes to a freshly built object).  Used with adversarial join timeouts, where
+    reset() of a live Prefetcher/ParallelMapper is the known C12 finding (old reader still inside the source)."""
     ops: List[Any] = ["reset_none"]
     ntok = 0
     for _ in range(n):
@@ -510,12 +531,12 @@ def gen_ops(rng, n: int, with_tokens: bool, strict_epochs: bool = False) -> List
                     break
                 if o == "reset_none" or isinstance(o, list):
                     break
-            ops.append("reset_none" if (nexted or not strict_epochs) else "next")
+            ops.append("reset_none" if (nexted or not strict_epochs) and not fresh_only else "next")
         elif with_tokens and r < 0.86:
             ops.append("get")
             ntok += 1
         elif with_tokens and ntok > 0 and r < 0.97:
-            if rng.random() < 0.3:
+            if fresh_only or rng.random() < 0.3:
                 ops.append("fresh")
             ops.append(["reset_tok", rng.randrange(ntok)])
         elif with_tokens and ntok > 0:
